@@ -656,7 +656,7 @@ int tokens_get(AsmContext *asm_context, char *token, int len)
     token_type = TOKEN_NUMBER;
   }
 
-  if (IS_TOKEN(token, '$'))
+  if (IS_TOKEN(token, '$') && token_type != TOKEN_QUOTED)
   {
     snprintf(token, len, "%d",
       asm_context->address / asm_context->bytes_per_address);
